@@ -111,7 +111,7 @@ func (e *c01Env) partial(body string) string {
 	return name
 }
 
-const c01Prelude = `<% let uf = fn(a) { return a } %><% let ufp = fn() { return pv } %>`
+const c01Prelude = `<% let uf = fn(a) { return a } %><% let ufp = fn() { return pv } %><% let uft = fn(a) { %><i>pre</i><% return a } %>`
 
 func c01Sources(p string) []c01Expr {
 	s := []c01Expr{
@@ -215,6 +215,10 @@ var c01Routes = []c01Route{
 	}},
 	{`uf(x)`, func(x c01Expr) (c01Expr, bool) {
 		return c01Expr{"", `uf(` + x.src + `)`, x.val}, true
+	}},
+	{`uft(x)`, func(x c01Expr) (c01Expr, bool) {
+		// a function whose body has literal text before its return: the text is markup, the returned value keeps its own kind
+		return c01Expr{"", `uft(` + x.src + `)`, c01Val{append([]c01Atom{{"lit", "<i>pre</i>"}}, x.val.atoms...), false, false}}, true
 	}},
 }
 
@@ -339,7 +343,7 @@ func init() {
 	engine.Register(&engine.Prop{
 		ID: "C01",
 		Shards: func(th bool) []string {
-			s := []string{"bytes", "short"}
+			s := []string{"bytes", "short", "typed"}
 			for wi := range c01Wraps {
 				for pi := range c01Payloads {
 					s = append(s, fmt.Sprintf("routes:%d:%d", wi, pi))
@@ -348,7 +352,7 @@ func init() {
 			return s
 		},
 		Run:  c01Run,
-		Rule: "payload x source x value-route^d x emit-form x wrapper^e. Sources (28): context string, struct / pointer-struct field, map[string]string and map[string]interface{} value, []string / []interface{} / nested slice element (literal and variable index), whole []string / []interface{}, Go helper returning string / interface{}, user-function result, double- and back-quoted literal, and the trusted ones: template.HTML variable, HTMLer, raw(x), helper returning template.HTML, template.HTML / HTMLer struct fields, []template.HTML and []interface{} elements, map[string]template.HTML value, mixed []interface{}, a value that is both HTMLer and fmt.Stringer; and a plain fmt.Stringer (by value and by pointer), whose text is a Go string and therefore escaped; debug(x), whose pre tags are markup and whose printed argument is data. Value routes (11): \"\"+x, x+\"\", x+x, x+raw(), [x][0], [x,x], [raw(),x,raw()], {k:x}[k], Go identity helpers (string / interface{}), user function. Emit forms (10): output tag, return from if / for / fn, let then emit, loop variable, partial data, contentOf data, function argument emitted inside the body, Go helper result when the helper was called with a block. Wrappers (12): top, if, else, for, fn body, helper block via Block() / BlockWith(), contentFor->contentOf (with and without data), contentOf default block, partial, partial with layout. A reference evaluator over the route gives the expected atom list (plain | trusted | literal frame); the output is walked along it: a plain atom must appear with every < > & ' \" as an entity (any spelling) and every other byte unchanged, a trusted atom byte-identical, nothing dropped, nothing emitted twice. (bytes) every single byte 0x01..0xFF and (short) every string of length <=3 over {< > & ' \" a &amp; é 世 \\xff} through every source and the direct emit forms. Non-trivial: payload contains a special character and the route has depth >= 1.",
+		Rule: "payload x source x value-route^d x emit-form x wrapper^e. Sources (28): context string, struct / pointer-struct field, map[string]string and map[string]interface{} value, []string / []interface{} / nested slice element (literal and variable index), whole []string / []interface{}, Go helper returning string / interface{}, user-function result, double- and back-quoted literal, and the trusted ones: template.HTML variable, HTMLer, raw(x), helper returning template.HTML, template.HTML / HTMLer struct fields, []template.HTML and []interface{} elements, map[string]template.HTML value, mixed []interface{}, a value that is both HTMLer and fmt.Stringer; and a plain fmt.Stringer (by value and by pointer), whose text is a Go string and therefore escaped; debug(x), whose pre tags are markup and whose printed argument is data. Value routes (12, incl. a template function with literal text before its return): \"\"+x, x+\"\", x+x, x+raw(), [x][0], [x,x], [raw(),x,raw()], {k:x}[k], Go identity helpers (string / interface{}), user function. Emit forms (10): output tag, return from if / for / fn, let then emit, loop variable, partial data, contentOf data, function argument emitted inside the body, Go helper result when the helper was called with a block. Wrappers (12): top, if, else, for, fn body, helper block via Block() / BlockWith(), contentFor->contentOf (with and without data), contentOf default block, partial, partial with layout. A reference evaluator over the route gives the expected atom list (plain | trusted | literal frame); the output is walked along it: a plain atom must appear with every < > & ' \" as an entity (any spelling) and every other byte unchanged, a trusted atom byte-identical, nothing dropped, nothing emitted twice. (typed) every scalar source and depth-1 route passed to Go helpers whose parameter (fixed, second, variadic) is typed template.HTML: plain strings are refused or stay escaped, trusted HTML passes verbatim. (bytes) every single byte 0x01..0xFF and (short) every string of length <=3 over {< > & ' \" a &amp; é 世 \\xff} through every source and the direct emit forms. Non-trivial: payload contains a special character and the route has depth >= 1.",
 		Bound: func(th bool) string {
 			if th {
 				return "9 payloads x value routes d<=2 x 10 emit forms x wrappers e<=2"
@@ -444,6 +448,40 @@ func c01Run(t *engine.T, shard string) {
 				c01Case(t, p, x, c01Emits[0], []int{0}, strings.ContainsAny(p, `<>&'"`))
 			}
 		})
+	case "typed":
+		// a Go helper whose parameter is typed template.HTML: a plain string must not become trusted by being
+		// passed to it (the call is refused, or the text stays escaped); trusted HTML passes verbatim
+		for _, p := range c01Payloads {
+			special := strings.ContainsAny(p, `<>&'"`)
+			for _, x := range c01Exprs(p, 1) {
+				if !x.val.scalar {
+					continue
+				}
+				x := x
+				for _, call := range []string{`hp(` + x.src + `)`, `hp2("k", ` + x.src + `)`, `hpv(` + x.src + `)`, `hpv(` + x.src + `, ` + x.src + `)`} {
+					src := c01Prelude + "A|<%= " + call + " %>|B"
+					t.Case(fmt.Sprintf("typed-param payload=%q %s %s", p, x.name, q(src)), special, func() (string, *engine.Fail) {
+						e := &c01Env{p: p, partials: map[string]string{}}
+						c := e.context()
+						c.Set("hp", func(h template.HTML) template.HTML { return h })
+						c.Set("hp2", func(k string, h template.HTML) template.HTML { return h })
+						c.Set("hpv", func(hs ...template.HTML) template.HTML { return hs[len(hs)-1] })
+						out, err := Render(src, c)
+						if err != nil {
+							if x.val.plain {
+								return "refused", nil
+							}
+							return "", engine.Failf("error", "trusted HTML refused by a template.HTML parameter: %v", err)
+						}
+						if f := c01Match(out, append(append([]c01Atom{{"lit", "A|"}}, x.val.atoms...), c01Atom{"lit", "|B"})); f != nil {
+							f.Msg += " (template " + q(src) + ")"
+							return "", f
+						}
+						return "passed", nil
+					})
+				}
+			}
+		}
 	case "routes":
 		var wi, pi int
 		fmt.Sscan(parts[1], &wi)
